@@ -28,8 +28,10 @@ fn doc_lines(what: &str, choice: usize) -> Vec<String> {
     match choice {
         0 => vec![],
         1 => vec![format!(" {what} doc")],
-        2 => vec![format!(" {what} first"), String::new(), format!(" {what} third"), String::new()],
-        _ => vec![format!(" {what} line"), String::new()],
+        2 => vec![String::new(), format!(" {what} second"), String::new(), format!(" {what} fourth"), String::new()],
+        3 => vec![format!(" {what} line"), String::new()],
+        // an empty first line
+        _ => vec![String::new(), format!(" {what} after an empty first line")],
     }
 }
 
@@ -53,7 +55,7 @@ fn cases(tier: &str) -> Vec<Case> {
         }
     }
     // (b) docs product, visibility / markers from two patterns
-    let nd: usize = if tier == "thorough" { 4 } else { 3 };
+    let nd: usize = if tier == "thorough" { 5 } else { 3 };
     for idx in 0..nd.pow(7) {
         let d = util::decode(idx, &[nd; 7]);
         for (vis, pm, tm, em, docs_after) in [(127u32, 0u32, 0u32, 0u32, false), (0b0101010, 0b0111, 0b011, 0b111, false), (0b0101010, 0b0111, 0b011, 0b111, true)] {
